@@ -37,7 +37,8 @@ def stage(ctx):
     for rnd in range(rounds):
         seed = ctx["seed"] * 1000 + rnd
         os.makedirs(ws, exist_ok=True)
-        r = subprocess.run([exe, "c02emit", "--seed", str(seed), "--out-dir", ws, "--n", str(per_round), "--batches", "16", "--target-dir", tdir],
+        r = subprocess.run([exe, "c02emit", "--seed", str(seed), "--out-dir", ws, "--n", str(per_round), "--batches", "16", "--target-dir", tdir,
+                            "--vmon-dir", os.path.join(root, "harness", "vmon"), "--known", ctx["known"]],
                            cwd=root, stdout=subprocess.PIPE, stderr=subprocess.PIPE, text=True)
         if r.returncode != 0:
             raise SystemExit(f"c02emit failed: {r.stderr[-2000:]}")
